@@ -28,6 +28,8 @@ Line-protocol driver for the C12 model (observed / cached properties).
   step  :=  sv o f x | si o t | sk o [ids] | mk o op [ids] e | sb o {k:id,…} | mb o op {…} e
           | st o [ints] | mt o op [ints] e | rd | at [kind] | dt [kind] | cp kind | K w/w/…
           | sp x (root.p = x; x = bad: a string) | dp (del root.p)
+          | mf o slot how [items] contents   (a container call whose LAST item is rejected: raises TraitError,
+            the container keeps `contents`; prints `-`)
             at / dt kind: t on_trait_change(h, 'p') | o observe(h, 'p') | n on_trait_change(h) (no name:
             object-level) ; without kind: t and o together (and the `rp` reader)
   out   :=  per step:  read c<calls> x[nested] s[static notes] t[otc notes] o[observe notes]
@@ -52,6 +54,7 @@ def parseLeaf : String → Option Slot
   | "Xn" => some (.scalar .xn)
   | "Xi" => some (.scalar .xi)
   | "Xe" => some (.scalar .xe)
+  | "Xm" => some (.scalar .xm)
   | "I" => some .inst
   | "K" => some .kids
   | "B" => some .byname
@@ -191,6 +194,7 @@ def parseWrite (s : String) : Option Write :=
   | ["xn", x] => do pure (.scalar .xn (← key? x))
   | ["xi", x] => do pure (.scalar .xi (← key? x))
   | ["xe", x] => do pure (.scalar .xe (← key? x))
+  | ["xm", x] => do pure (.scalar .xm (← key? x))
   | ["i", t] => do pure (.inst (← optId? t))
   | ["k", l] => do pure (.kids (← natList? l))
   | ["b", d] => do pure (.byname (← dict? d))
@@ -203,6 +207,7 @@ def parseField : String → Option Field
   | "xn" => some .xn
   | "xi" => some .xi
   | "xe" => some .xe
+  | "xm" => some .xm
   | _ => none
 
 
@@ -224,6 +229,11 @@ def parseStep (s : String) : Option Step :=
   | ["st", o, l] => do pure (.change ⟨← o.toNat?, .tags (← intList? l), false⟩)
   | ["mt", o, _, l, e] => do pure (.change ⟨← o.toNat?, .tags (← intList? l), ← bool? e⟩)
   | ["rd"] => some .read
+  -- a container call in which a later item is rejected by the item / key / value trait: raises, and the
+  -- container is left as it was (the case line carries the unchanged contents)
+  | ["mf", o, "k", _, _, c] => do pure (.change ⟨← o.toNat?, .kids (← natList? c), false⟩)
+  | ["mf", o, "b", _, _, c] => do pure (.change ⟨← o.toNat?, .byname (← dict? c), false⟩)
+  | ["mf", o, "t", _, _, c] => do pure (.change ⟨← o.toNat?, .tags (← intList? c), false⟩)
   | ["sp", x] => if x = "bad" then some (.set (.value badValue)) else (int? x).map (fun v => .set (.value v))
   | ["dp"] => some (.set .delete)
   | ["cp", _] => some .copy
